@@ -10,7 +10,7 @@ if [ $mode = breaking ]; then
   (cd $out && timeout 600 /venv/bin/python demo.py >/dev/null 2>&1); d0=$?
 fi
 git apply $out/patch.diff || { echo "PATCH DOES NOT APPLY"; exit 2; }
-suite=$(timeout 900 /venv/bin/python -m pytest -q -p no:cacheprovider -x 2>&1 | tail -1)
+suite=$(OMP_NUM_THREADS=3 MKL_NUM_THREADS=3 timeout 1500 /venv/bin/python -m pytest -q -p no:cacheprovider -x 2>&1 | tail -1)
 if [ $mode = breaking ]; then
   (cd $out && timeout 600 /venv/bin/python demo.py >/dev/null 2>&1); d1=$?
   echo "demo without=$d0 with=$d1 suite: $suite"
